@@ -50,3 +50,7 @@ impl Numeric for bool {
         src != 0
     }
 }
+
+#[cfg(loom_verif)]
+#[path = "/verif/hooks/num_verif.rs"]
+pub(crate) mod verif;
